@@ -310,6 +310,26 @@ def _r_clip(f, a):
     return f.clip(lower=a['lower'], upper=a['upper'])
 
 
+def _d_clip_frame(spec, rng):
+    if not spec.shape[0] or not spec.shape[1]:
+        return None
+    return {'spec': spec, 'lay_seed': rng.randrange(1 << 30), 'which': rng.choice(['both', 'lower', 'upper']), 'shift': rng.choice([0, 0, 1])}
+
+
+def _r_clip_frame(f, a):
+    # bounds given as a Frame of the same labels held in its OWN block layout (fixed per case, whatever layout f has)
+    import random
+    spec = a['spec']
+    lays = F.layouts(spec.dtypes)
+    g = F.build_frame(spec, random.Random(a['lay_seed']).choice(lays))
+    kw = {}
+    if a['which'] in ('both', 'lower'):
+        kw['lower'] = g
+    if a['which'] in ('both', 'upper'):
+        kw['upper'] = g
+    return f.clip(**kw)
+
+
 def _d_sort_values(spec, rng):
     if not spec.cols or spec.col_kind.startswith('hier'):
         return None
@@ -520,6 +540,7 @@ CATALOGUE = {
     'unary': (_d_unary, _r_unary),
     'isin': (_d_isin, _r_isin),
     'clip': (_d_clip, _r_clip),
+    'clip_frame': (_d_clip_frame, _r_clip_frame),
     'sort_values': (_d_sort_values, _r_sort_values),
     'sort_values_axis0': (_d_sort_axis1, _r_sort_axis1),
     'sort_index': (_d_bool, lambda f, a: f.sort_index(ascending=a['asc'])),
@@ -652,6 +673,8 @@ def generate(ctx):
                                  col_kinds=['str', 'int', 'auto', 'hier2', 'negint'], homog_p=0.12)
             names = rng.sample(OPS, 14)
             ctx.tally('workload', 'general')
+            if rng.random() < 0.3 and 'clip_frame' not in names:
+                names.append('clip_frame')  # the one operation whose second operand has a block layout of its own
             if 'object' in spec.dtypes and rng.random() < 0.4:
                 # object columns holding tuples: a cell that NumPy would read as a sequence wherever an array is built from cells
                 for j, dt in enumerate(spec.dtypes):
